@@ -53,11 +53,11 @@ func genLines(r *Rng, now Now) (int, []FileLine) {
 			continue
 		}
 		var ls []FileLine
-		n := r.Range(12, 45)
+		n := r.Range(12, 70)
 		ok := true
 		for len(ls) < n && ok {
 			// a run of dated lines
-			for i := r.PickInt(1, 1, 2, 3, 6); i > 0; i-- {
+			for i := r.PickInt(1, 1, 2, 3, 6, 12, 24); i > 0; i-- {
 				cv := fit(r, fi, randCivil(r, !fi.twoDigitYear), now, false)
 				if !cleanFormat(k, cv) {
 					ok = false
